@@ -47,7 +47,8 @@ class Repartition(Expr):
             or self.partition_size is not None
         ):
             x = self.optimize(fuse=False)
-            return x._divisions()
+            # not ``_divisions()``: the optimized plan may be a partition-filtered source
+            return x.divisions
         return self.new_divisions
 
     @property
